@@ -5,11 +5,16 @@ import hypothesis
 from hypothesis import HealthCheck, Phase, given, settings
 
 
+class _BudgetSpent(Exception):
+    """Leaves the generation loop once the shard's time budget is used up (the shard is then reported inconclusive, never as a finding):
+    without it Hypothesis goes on generating the remaining examples, which for the heavy strategies costs as much as running them."""
+
+
 def drive(ctx, name: str, strategy, body, max_examples: int, phases=None) -> None:
     """Run body(case) on max_examples draws of strategy, seeded from VERIF_SEED."""
     def wrapped(case):
         if ctx.expired():
-            return
+            raise _BudgetSpent()
         body(case)
 
     test = given(strategy)(wrapped)
@@ -19,7 +24,10 @@ def drive(ctx, name: str, strategy, body, max_examples: int, phases=None) -> Non
         phases=phases or (Phase.explicit, Phase.generate),
     )(test)
     test = hypothesis.seed(ctx.derive(name))(test)
-    test()
+    try:
+        test()
+    except _BudgetSpent:
+        pass
 
 
 def drive_machine(ctx, name: str, machine_cls, max_examples: int, steps: int) -> None:
